@@ -97,14 +97,15 @@ prop('C01',
 
 
 prop('C10',
-     [T.r10_a, T.r10_b, S.r10_c, T.r19_a_precondition],
+     [T.r10_a, T.r10_b, S.r10_c, T.r19_a_precondition, AR.r18_i],
      'Assertions on the tokenizer dispatch table (abstract interpretation, see C19) for the windows that start with '
      'a backslash or a percent sign, plus a rule on the set of token kinds the reader branches on.',
      'R10.a a backslash followed by %% or by another backslash is always consumed together with it by an earlier rule '
      '(so a %% after an odd run of backslashes is never at the cursor when the comment rule is consulted); R10.b an '
      'unescaped %% yields one comment token that ends only at a line break or the end of input, contains no line '
      'break, and no other token kind can contain an unescaped %%; R10.c the reader never branches on the comment '
-     'kind, so a comment reaches the tree only as a text leaf.',
+     'kind, so a comment reaches the tree only as a text leaf; R18.i a comment taken as the bare-token argument of a '
+     'command passes through the group parser, which must cut exactly one delimiter at each end.',
      'that search never matches a text leaf as a command (beyond R03.c); behaviour of the raw scan inside skipped '
      'environments (excluded by the precondition of C11).')
 
